@@ -195,6 +195,7 @@ func vC05NewExec(out *vOut, p vC05Prog, dirTag string, stats map[string]int, hoo
 	vNoOpen = true
 	c := vNewLogCase(out, p.id, "c05"+dirTag, p.options(), stats)
 	vNoOpen = false
+	c.extra = vM{"seed": p.seed, "nops": p.nops, "prog": p.profile, "prog_maxb": p.maxb}
 	e := &vC05Exec{p: p, c: c, r: vNewRand(p.seed), hook: hook}
 	if p.profile == "compact" {
 		e.pool = [][]byte{[]byte("a"), []byte("b"), nil}
@@ -730,7 +731,18 @@ func TestVerifC05(t *testing.T) {
 	var progs []vC05Prog
 	if rl := vReplayLines(); rl != nil {
 		for _, m := range rl {
-			progs = append(progs, vC05Prog{seed: uint64(m["seed"].(float64)), id: int(m["id"].(float64)), profile: m["profile"].(string), maxb: int64(m["maxb"].(float64)), nops: int(m["nops"].(float64))})
+			prof, _ := m["prog"].(string)
+			if prof == "" {
+				prof, _ = m["profile"].(string)
+			}
+			maxb, ok := m["prog_maxb"].(float64)
+			if !ok {
+				maxb, _ = m["maxb"].(float64)
+			}
+			if _, ok := m["seed"].(float64); !ok {
+				continue
+			}
+			progs = append(progs, vC05Prog{seed: uint64(m["seed"].(float64)), id: int(m["id"].(float64)), profile: prof, maxb: int64(maxb), nops: int(m["nops"].(float64))})
 		}
 	} else {
 		for i := 0; i < nprog; i++ {
